@@ -5,6 +5,7 @@ import H3.Lemmas.WriteBuf
 import H3.Lemmas.WriteBufChunks
 import H3.Lemmas.SendFrames
 import H3.Lemmas.SendSide
+import H3.Lemmas.SendSideX
 /-! # C14 — everything an h3 endpoint writes is valid HTTP/3, however the transport takes it
 
 Property theorems only.  Models: `H3.WriteBuf` (`h3/src/stream.rs` `WriteBuf`, its `From`
@@ -280,6 +281,50 @@ theorem C14_program_output_valid (server : Bool) (cfg : Config) (gN : Nat) (st0 
   rw [hcx] at this
   exact this
 
+/-- The run theorem over the EXTENDED machine: besides the writing calls of
+    `C14_program_output_valid`, in any order and number, `stop_stream(code)`, the peer's
+    STOP_SENDING on any stream, a call abandoned in mid-write with its handle, `stop_sending`, the
+    peer's RESET_STREAM, `split`, `SendRequest::clone` and requests through any clone (each with
+    its own copy of the grease flag).  For every run: every stream still live satisfies the output
+    specification as before; every stream whose send side was ended by one of these satisfies it
+    as it stands — it may end inside a frame: a PREFIX of valid output, and a whole number of
+    frames if it had been finished —; h3 resets request streams only (never a control or QPACK
+    stream); and a live request stream on which no write is in flight holds a whole number of
+    frames whether finished or not (the `length` field of its last DATA / HEADERS frame equals the
+    bytes that follow). -/
+theorem C14_program_output_valid_ext (server : Bool) (cfg : Config) (gN : Nat) (st0 : State)
+    (h0 : init server cfg gN = some st0) (steps : List XStep) :
+    (∀ e ∈ (xrun { st := st0 } steps).st.streams,
+      checkStream { server := server, wt := cfg.wt } e.1 e.2.log e.2.fin = none ∧
+      (e.2.kind = .request → e.2.cur = none → checkRequest e.2.log true = none)) ∧
+    (∀ e ∈ (xrun { st := st0 } steps).frozen,
+      checkStream { server := server, wt := cfg.wt } e.1 e.2.1.log e.2.1.fin = none ∧
+      (e.2.2.isSome = true → e.1 % 4 = 0)) := by
+  have hx0 : XInv { st := st0 } :=
+    ⟨init_inv server cfg gN st0 h0, fun e he => by cases he⟩
+  have hinv := xrun_inv _ steps hx0
+  have hcx : cxOf (xrun { st := st0 } steps).st = { server := server, wt := cfg.wt } := by
+    rw [xrun_cx]; exact init_cx server cfg gN st0 h0
+  refine ⟨?_, ?_⟩
+  · intro e he
+    have hs := hinv.1 e he
+    rw [hcx] at hs
+    exact ⟨sinv_valid _ _ _ hs, sinv_idle_request_whole _ _ _ hs⟩
+  · intro e he
+    have := hinv.2 e he
+    rw [hcx] at this
+    exact this
+
+/-- the machine of `C14_program_output_valid` is the extended one restricted to writing calls -/
+theorem C14_ext_conservative (st : State) (steps : List Step) :
+    (xrun { st := st } (steps.map .api)).st = run st steps ∧
+    (xrun { st := st } (steps.map .api)).frozen = [] := by
+  induction steps generalizing st with
+  | nil => exact ⟨rfl, rfl⟩
+  | cons s r ih =>
+    have := ih (step st s)
+    simpa [xrun, run, xstep, isFrozen] using this
+
 /-- a concrete client run: the control header trickles out (3 bytes, `Pending`, the rest), a
     request with an empty and a two-byte DATA frame is sent one byte at a time and finished
     with a grease frame, GOAWAY follows on the control stream -/
@@ -353,5 +398,26 @@ example : greaseId (GREASE_RANGE_END - 1) = 4611686018427387871 ∧
     writeVar (greaseId (GREASE_RANGE_END - 1)) = some [0xff, 0xff, 0xff, 0xff, 0xff, 0xff, 0xff, 0xdf] := by
   decide
 example : isReserved 0x21 = true ∧ isReserved 0x41 = false ∧ isReserved 0x5f = true := by decide
+
+-- a client: the request's DATA frame is cut by the peer's STOP_SENDING after 3 of its 5 bytes (the
+-- stream stays a prefix of valid output and never moves again, later calls write nothing), a
+-- second request through a clone made before the first request carries its own grease frame
+def demoXSteps : List XStep :=
+  [.api (.poll 2 1000), .api (.poll 6 1), .api (.poll 10 1),
+   .cloneSender 0, .sendRequestVia 0 0 [0xd1], .api (.poll 0 100), .api (.poll 0 100),
+   .api (.sendData 0 [7, 8, 9]), .api (.poll 0 100), .api (.poll 0 2), .peerStop 0 268,
+   .api (.poll 0 100), .api (.sendData 0 [1]), .api (.finish 0 5),
+   .sendRequestVia 1 4 [0xd1], .api (.poll 4 100), .api (.poll 4 100), .api (.finish 4 5),
+   .api (.poll 4 100), .stopStream 4 268, .stopStream 2 1]
+
+def demoX : Option XState := (init false demoCfg 2).map (fun s => xrun { st := s } demoXSteps)
+
+example : demoX.map (fun x => x.st.streams.map (·.1)) = some [2, 6, 10] := by decide +kernel
+example : demoX.map (fun x => x.frozen.map (fun e => (e.1, e.2.1.log))) =
+    some [(0, [0x01, 0x01, 0xd1, 0x00, 0x03, 7, 8]),
+          (4, [0x01, 0x01, 0xd1, 0x40, 0xbc, 0x06, 103, 114, 101, 97, 115, 101])] := by decide +kernel
+example : demoX.map (fun x => x.frozen.map (fun e => (e.2.1.fin, e.2.2))) =
+    some [(false, none), (true, some 268)] := by decide +kernel
+example : demoX.map (·.handles) = some [false, false] := by decide +kernel
 
 end H3.Props.C14
